@@ -207,5 +207,5 @@ Fixpoint expand_items (cfg : icfg) (rho : env) (t : list item) (d : dstate)
 Definition expand (cfg : icfg) (rho : env) (t : list item) (d0 : dstate) (w : world)
   : outcome * world * dstate * list hal :=
   match expand_items cfg rho t d0 w [] with
-  | (o, w1, d, acc) => (o, w1, d, rev acc)
+  | (o, w1, d, acc) => (o, w1, d, rev_append acc [])
   end.
